@@ -155,12 +155,13 @@ EXTRA = {
     'C01': " A layer value is never tested for truthiness (layers are user objects; rules/robust.py). The map of set-up layers, followed from its creation through every resolved call, gains entries only in setup_layer and loses entries only in tear_down_unneeded.",
     'C02': " The layer-failure recorder appends on every normal exit, also when a handler inside it swallows a reporting problem (CFG with every call fallible). The child/parent wire rule is shared (header and body agreement; the header is a WHOLE line of integers: all tokens unpacked, or a pattern anchored at the end); sys.stderr is re-pointed on every path through the child's set-up hook.",
     'C03': " walk_with_symlinks walks every symlinked sub-directory left after the caller's in-place pruning of the yielded list (no snapshot taken before the yield; shared with C14.R4). The filter predicate applies each pattern on its own (shared with C08.R1).",
-    'C04': " No isinstance / issubclass test classifies an exception value by the class Exception (SystemExit is BaseException only); at every call resolved inside the package a positional argument that is a plain name equal to a parameter name of the callee is bound to that parameter (unanimous belief rule); the recorder appends on every normal exit with every call fallible. The verdict is computed after everything that can still record a layer failure (shared with C02.R1).",
+    'C04': " No isinstance / issubclass test classifies an exception value by the class Exception (SystemExit is BaseException only); at every call resolved inside the package a positional argument that is a plain name equal to a parameter name of the callee is bound to that parameter (unanimous belief rule); the recorder appends on every normal exit with every call fallible. The verdict is computed after everything that can still record a layer failure (shared with C02.R1). A while loop that advances a name along a None-terminated chain (tb_next, f_back, __cause__, __context__) tests it for None before reading an attribute of it.",
     'C05': " In startTest and in the branch of addSkip that stands in for it, no formatter call and no call into the test object is reachable before self.testSetUp() (the drivers run stopTest once startTest was entered).",
-    'C07': " The writer's sanitiser may be a constant regular expression (context-free pattern that matches each line-break character alone and never the empty string); a reader that splits decoded text splits at all ten str.splitlines characters. The header is a whole line of integers (all tokens unpacked, or a pattern fullmatch-ed / anchored at the end); sys.stderr is re-pointed on every path through the child's set-up hook; nothing of the report is recorded after result.done was set.",
+    'C07': " The writer's sanitiser may be a constant regular expression (context-free pattern that matches each line-break character alone and never the empty string); a reader that splits decoded text splits at all ten str.splitlines characters. The header is a whole line of integers (all tokens unpacked, or a pattern fullmatch-ed / anchored at the end); sys.stderr is re-pointed on every path through the child's set-up hook; nothing of the report is recorded after result.done was set. A child without report is recorded once (no strict decode of its stderr after the entry while a catch-all handler appends it again).",
     'C10': " A layer value is never tested for truthiness (layers are user objects; rules/robust.py). The ordered list handed to resume_tests is neither re-bound nor re-ordered.",
-    'C12': " A child keeps exactly its own layer, so nothing is counted twice across processes (shared with C10.R5); the header is a whole line of integers.",
-    'C06': " Nothing of a layer's report is recorded after result.done was set (the polling parent may stop waiting as soon as it sees the flag); the header is a whole line of integers.",
+    'C12': " A child keeps exactly its own layer, so nothing is counted twice across processes (shared with C10.R5); the header is a whole line of integers. A lost child is recorded once (shared with C07.R8).",
+    'C06': " Nothing of a layer's report is recorded after result.done was set (the polling parent may stop waiting as soon as it sees the flag); the header is a whole line of integers. options.processes is stored by the parser only: the N of the start guard is the N the user gave.",
+    'C20': " Nodes and neighbours may be one-shot iterators: no parameter of a function in digraph.py is consumed at two sites in sequence unless it was materialised first.",
     'C13': " Outside the parser options.buffer is only ever stored with the constant True: --buffer survives every other option.",
     'C14': " The directories examined for links after the yield are the yielded list as the caller left it (reaching definitions / dominators). The derivation of the examined directories from the yielded list is followed transitively.",
     'C15': " The directories examined for links after the yield are the yielded list as the caller left it (shared with C14.R4).",
